@@ -68,6 +68,7 @@ def model_of(step):
         "members": {t: [[m[0], path_of(m[1])] for m in ms] for t, ms in obs["members"].items()},
         "modules": {r: (None if p == "<none>" else path_of(p)) for r, p in obs["modules"].items()},
         "supers": {t: sorted(ss) for t, ss in obs["supers"].items()},
+        "inherit": {t: [[m[0], path_of(m[1])] for m in ms] for t, ms in obs.get("inherit", {}).items()},
         "gen": {t: list(ps) for t, ps in obs["gen"].items()},
         "ops": {t: {mm: [[o[0], path_of(o[1])] for o in seq] for mm, seq in per.items()} for t, per in obs["ops"].items()},
         "sizes": real_sizes(step["sizes"]),
@@ -178,6 +179,10 @@ def classify_same(diffs, full):
             sigs.add("C08/module-index-leak/sizes")
         elif re.fullmatch(r"/globals/[^/]+/first", p) or (glob_first and p.endswith("/tokens")):
             sigs.add("C08/global-decl-order/definition")
+        elif re.fullmatch(r"/types/[^/]+/(generic|render)", p) or p == "/sizes/type.generic_params":
+            sigs.add("C08/generic-header/params")
+        elif re.fullmatch(r"/types/[^/]+/operators/[^/]+", p):
+            sigs.add("C08/operator-order/" + p.rsplit("/", 1)[1])
         elif p.startswith("/sizes/"):
             sigs.add("C08/size-drift/" + p[len("/sizes/"):])
         else:
@@ -192,8 +197,10 @@ def run(ctx, prop):
                     ["AnalysisDb_t", "AnalysisDb_t2", "AnalysisDb_t3", "AnalysisDb_t4", "AnalysisDb_t5", "AnalysisDb_t6"]),
             "C09": (["AnalysisDb_c09_q", "AnalysisDb_c09_q2"],
                     ["AnalysisDb_c09_t", "AnalysisDb_c09_t2", "AnalysisDb_c09_t3"]),
-            "C10": (["AnalysisDb_c10_q", "AnalysisDb_c10_q2"],
-                    ["AnalysisDb_c10_t", "AnalysisDb_c10_t2", "AnalysisDb_c10_t3"])}[prop]
+            # q3/t4: partial class whose inheritance edge lives in one declaring file only, base class, user of the
+            # inherited field (after seeded review)
+            "C10": (["AnalysisDb_c10_q", "AnalysisDb_c10_q2", "AnalysisDb_c10_q3"],
+                    ["AnalysisDb_c10_t", "AnalysisDb_c10_t2", "AnalysisDb_c10_t3", "AnalysisDb_c10_t4"])}[prop]
     cfgs = ctx.pick(*tier)
     results = run_tlc_many(ctx, cfgs, workers_each=ctx.pick(1, 2), timeout=ctx.pick(900, 2400))
     vlib.build(["vh-analysis"])
@@ -283,6 +290,16 @@ def run(ctx, prop):
                         add("C10/dependency-edge-to-removed-file", cid, i, s["mentions"][:6])
                     else:
                         add("C10/mention/" + where, cid, i, s["mentions"][:6])
+                # super edges / inherited members are owned by the declaring file (the spec's InheritIdeal: the
+                # expectation after a removal is the fresh one): anything beyond it is a fact of the removed file
+                for d in s.get("model", []):
+                    kind, _, tname = d[0].partition("/")
+                    if kind in ("supers", "inherit"):
+                        want = {json.dumps(x) for x in d[1]}
+                        stale = [x for x in d[2] if json.dumps(x) not in want]
+                        if stale:
+                            add("C10/stale/%s/%s" % ("super-type" if kind == "supers" else "inherited-member", tname),
+                                cid, i, {"expected": d[1], "observed": d[2]})
                 # memory: every modelled map must not be larger than in Ideal(remaining) ...
                 ideal = real_sizes(full["ideal_sizes"])
                 fresh_sizes = {d[0][len("/sizes/"):]: (d[1], d[2]) for d in s.get("fresh", []) if d[0].startswith("/sizes/")}
